@@ -384,6 +384,43 @@ def run(ctx):
 
 # ----------------------------------------------------------------------------------
 
+    # which status answers let the handshake go on
+    ctx.rule('C04.9-status-acceptance', 'the handshake continues only on the status answers `ok` and `ok_simultaneous`: Status::is_ok() is true for exactly those variants (evaluated variant by variant), '
+             'and handle_status refuses on its false edge', floor=2)
+    SB = ctx.P.B(HS + 'Status::is_ok')
+    sadt = ctx.F.adts.get(HS + 'Status')
+    if ctx.anchor(SB is not None and sadt is not None, HS + 'Status::is_ok'):
+        from ..core import eval_on_variant
+        res = {v['n']: eval_on_variant(SB, i) for i, v in enumerate(sadt['variants'])}
+        accept = sorted(k for k, v in res.items() if v in (1, True))
+        unknown = sorted(k for k, v in res.items() if v is None)
+        if unknown:
+            ctx.undecided('C04.9-status-acceptance', 'is_ok', 'result not decided for %s' % unknown)
+        elif accept == ['Ok', 'OkSimultaneous']:
+            ctx.ok('C04.9-status-acceptance', 'is_ok', 'true for %s, false for %s' % (accept, sorted(set(res) - set(accept))), ctx.where(SB))
+        else:
+            ctx.bad('C04.9-status-acceptance', 'is_ok', 'Status::is_ok() is true for %s; the protocol lets the handshake proceed only on ok / ok_simultaneous (nok, not_allowed and alive must stop it)' % accept,
+                    ctx.where(SB), key='TABLE:%sStatus::is_ok:accepts:%s' % (HS, ','.join(accept)))
+    HB = ctx.P.B('edp_client::state_machine::HandshakeStateMachine::handle_status')
+    if ctx.anchor(HB is not None, 'HandshakeStateMachine::handle_status'):
+        tests = []
+        for bb in sorted(HB.live_blocks()):
+            sb = HB.switch_bool_edges(bb)
+            if sb and sb[0][0] == 'call' and is_call_to(sb[0][2], HS + 'Status::is_ok'):
+                tests.append((bb, sb))
+        if not tests:
+            ctx.bad('C04.9-status-acceptance', 'handle_status', 'handle_status no longer tests Status::is_ok(): every status answer lets the handshake continue', ctx.where(HB), key='DOM:handle_status:no-status-test')
+        else:
+            bb, (src, t_t, f_t) = tests[0]
+            from ..wire import error_blocks
+            errs = error_blocks(HB)
+            refuses = any(x in errs for x in HB.reachable(f_t)) and not any(r_ in HB.reachable(f_t, removed_blocks=errs) for r_ in HB.return_blocks())
+            if refuses:
+                ctx.ok('C04.9-status-acceptance', 'handle_status', 'the false edge of is_ok() only leads to an error return', ctx.where(HB, bb))
+            else:
+                ctx.bad('C04.9-status-acceptance', 'handle_status', 'a status for which is_ok() is false can still return successfully from handle_status', ctx.where(HB, bb), key='DOM:handle_status:false-edge-continues')
+
+
 def check_digest(ctx):
     B = ctx.body('edp_client::digest::compute_digest')
     if B is None:
